@@ -1,9 +1,9 @@
-(* C13  Transclusion terminates on any include graph (and the manifest has no duplicates).
+(* C13  Transclusion terminates on any include graph and substitutes exactly.
    Model: model/TranscludeModel.v, tied to transclude.c by correspondence on materialised file trees. *)
 From Coq Require Import Lia.
 From MMD.lib Require Import Bytes.
 From MMD.model Require Import TranscludeModel.
-From MMD.proofs Require Import TranscludeProofs.
+From MMD.proofs Require Import TranscludeProofs TranscludeExact.
 Local Open Scope N_scope.
 
 (* For EVERY file system (any include graph: trees, sharing, self inclusion, cycles, missing files),
@@ -29,3 +29,37 @@ Example self_and_cycle :
   exists st, transclude_top fs EHtml [47] a ([120] ++ inc a ++ inc b) =
              Ok ([120] ++ ([120] ++ inc a ++ ([121] ++ inc a)) ++ ([121] ++ ([120] ++ inc a ++ inc b)), st) /\ cyc st = true.
 Proof. vm_compute. eexists; split; reflexivity. Qed.
+
+
+(* Exact substitution.  Files are described in structured form ([sdoc]: text pieces alternating with marker
+   names; texts without '{', names without braces, shorter than the limit, not TOC, not absolute, no ".*"
+   wildcard; every file starts with a byte that cannot begin a metadata key or a byte order mark) and
+   [expand] is plain textual substitution that refuses to include a file inside itself.  For include trees
+   of ANY depth and width: whenever [expand] succeeds - all targets exist and no cycle is met - the model of
+   mmd_transclude_source returns exactly the expanded text. *)
+Theorem transclusion_substitutes_exactly :
+  forall fs fmt F, ends_with_sep F = true -> forall segs,
+  (forall p, lookup fs p = option_map src (segs p)) ->
+  (forall p d, segs p = Some d -> doc_ok d = true) ->
+  forall n stack st d out, doc_ok d = true -> expand F segs n stack d = Some out ->
+  forall p, exists st', transclude fs fmt n F p stack st (src d) = Ok (out, st').
+Proof. exact transclude_exact. Qed.
+Print Assumptions transclusion_substitutes_exactly.
+
+(* non-vacuity: a -> b -> c and a second use of b; the expansion and the model agree on the text *)
+Definition b_ (s : list N) := s.
+Definition ex_F : list N := [47; 100; 47].                                   (* "/d/" *)
+Definition ex_c : sdoc := mksd [] [46; 99].                                   (* ".c" *)
+Definition ex_b : sdoc := mksd [([46; 98], [99])] [33].                      (* ".b{{c}}!" *)
+Definition ex_a : sdoc := mksd [([46; 97; 32], [98])] [32; 121].             (* ".a {{b}} y" *)
+Definition ex_top : sdoc := mksd [([46; 116; 32], [97]); ([32; 109; 32], [98])] [32; 101].   (* ".t {{a}} m {{b}} e" *)
+Definition ex_segs (p : list N) : option sdoc :=
+  if bytes_eqb p (ex_F ++ [97]) then Some ex_a else if bytes_eqb p (ex_F ++ [98]) then Some ex_b
+  else if bytes_eqb p (ex_F ++ [99]) then Some ex_c else None.
+Definition ex_fs : fsys := [(ex_F ++ [97], src ex_a); (ex_F ++ [98], src ex_b); (ex_F ++ [99], src ex_c)].
+Example exact_sample :
+  doc_ok ex_top = true /\
+  expand ex_F ex_segs 4 [] ex_top = Some [46;116;32; 46;97;32; 46;98; 46;99; 33; 32;121; 32;109;32; 46;98; 46;99; 33; 32;101] /\
+  option_map fst (match transclude_top ex_fs EHtml ex_F (ex_F ++ [116]) (src ex_top) with Ok r => Some r | Err _ => None end) =
+  expand ex_F ex_segs 4 [] ex_top.
+Proof. vm_compute. auto. Qed.
